@@ -1,5 +1,85 @@
-(* STUB: Spec layer for rhct -- to be written *)
-From Coq Require Import NArith List.
-From ACPI Require Import Lib.Bytes Lib.Sx Spec.Layout.
+(* Spec layer for the RHCT (RISC-V Hart Capabilities Table), written from SPEC_NOTES.md A.2.
+   Case vocabulary (shared with the harness):
+     ctor  (oem6 tbl8 orev timebase_frequency)
+     ops   (1 bytes)                     add_isa_string(the string with these UTF-8 bytes) -> IsaStringHandle
+           (2 scheme)                    add_mmu_node(scheme)      scheme 0 Sv39 1 Sv48 2 Sv57                 (returns nothing: 0)
+           (3 cbom cbop cboz)            add_cmo(CmoNode::new(cbom, cbop, cboz)) -> CmoHandle
+           (4 uid (104 i) ((104 c) ...)) add_hart_info(HartInfoNode::new(uid, &isa handle of operation i)
+                                                        .with_cmo(&cmo handle of operation c) ...)              (returns nothing: 0)
+     (104 k) counts real operations from 0 (observations are not counted); the operation must have returned a handle of the
+     expected kind.  In the reference a handle is the offset at which the node added by operation k starts. *)
+From Coq Require Import NArith List Bool.
+From ACPI Require Import Lib.Bytes Lib.Sx Spec.Layout Spec.MadtS Spec.HmatS Spec.PpttS.
 Import ListNotations.
-Definition rhct_spec : tspec := null_spec.
+Open Scope N_scope.
+
+Definition rhct_entry_ref (p : placed) (o : sx) : option (list N) :=
+  match o with
+  | SL [SA 1; str] =>
+      (* ISA string node: string length counts the NUL; the node is padded to an even size *)
+      match sx_bytes str with
+      | Some b =>
+          let n := length b in
+          let pad := Nat.odd (8 + n + 1) in
+          let total := (8 + n + 1 + (if pad then 1 else 0))%nat in
+          if forallb (fun x => x <? 256) b && (N.of_nat total <=? 65535) then
+            (* 8 fixed bytes, the string, its NUL, the pad byte *)
+            lay_then 8 [L 0 2 0; L 2 2 (N.of_nat total); L 4 2 1; L 6 2 (N.of_nat (n + 1))] (b ++ [0] ++ (if pad then [0] else []))
+          else None
+      | None => None
+      end
+  | SL [SA 2; SA scheme] =>
+      if scheme <? 3 then lay 8 [L 0 2 2; L 2 2 8; L 4 2 1; L 6 1 0; L 7 1 scheme] else None
+  | SL [SA 3; SA cbom; SA cbop; SA cboz] =>
+      if (cbom <? 256) && (cbop <? 256) && (cboz <? 256) then
+        lay 10 [L 0 2 1; L 2 2 10; L 4 2 1; L 6 1 0; L 7 1 cbom; L 8 1 cbop; L 9 1 cboz]
+      else None
+  | SL [SA 4; SA uid; isa; SL cmos] =>
+      (* hart info node: the first offset names an ISA string node, the others CMO nodes *)
+      match resolve p 0 isa, resolve_all p 1 cmos with
+      | Some i, Some cs =>
+          let k := S (length cs) in
+          if (uid <? 2 ^ 32) && (N.of_nat (12 + 4 * k) <=? 65535) then
+            lay_then 12 [L 0 2 65535; L 2 2 (N.of_nat (12 + 4 * k)); L 4 2 1; L 6 2 (N.of_nat k); L 8 4 uid] (arr 4 (i :: cs))
+          else None
+      | _, _ => None
+      end
+  | _ => None
+  end.
+
+Fixpoint rhct_entries_from (ops : list sx) (p : placed) (next : N) (racc : list (list N)) : option (list (list N)) :=
+  match ops with
+  | [] => Some (frev racc)
+  | o :: r =>
+      match rhct_entry_ref p o with
+      | Some e => rhct_entries_from r ((unle (firstn 2 e), next) :: fst p, snd p + 1) (next + N.of_nat (length e)) (e :: racc)
+      | None => None
+      end
+  end.
+
+Definition rhct_entries_ref (ops : list sx) : option (list (list N)) := rhct_entries_from ops ([], 0) 56 [].
+
+Definition rhct_image (ctor : sx) (ops : list sx) : option (list N) :=
+  match ctor with
+  | SL [o; t; r; SA timebase] =>
+      match sx_hdr_args o t r, rhct_entries_ref ops with
+      | Some h, Some es =>
+          let cnt := N.of_nat (length es) in
+          if (timebase <? 2 ^ 64) && (cnt <? 2 ^ 32) then
+            Some (ref_table [82; 72; 67; 84] 1 h (le 4 0 ++ le 8 timebase ++ le 4 cnt ++ le 4 56 ++ concat es))
+          else None
+      | _, _ => None
+      end
+  | _ => None
+  end.
+
+Definition rhct_returns (o : sx) : bool :=
+  match o with SL (SA 1 :: _) | SL (SA 3 :: _) => true | _ => false end.
+
+Definition rhct_spec : tspec := {|
+  ts_image := rhct_image;
+  ts_walk := Some (56%nat, H_u16_u16);
+  ts_entries := fun _ ops => option_map (map (fun e => (unle (firstn 2 e), length e))) (rhct_entries_ref ops);
+  ts_counts := fun n => [(48%nat, 4%nat, N.of_nat n); (52%nat, 4%nat, 56)];
+  ts_returns := rhct_returns
+|}.
